@@ -154,7 +154,12 @@ type result struct {
 
 func tickBudget(n int) int { return 2000 + 100*n }
 
-func runCase(c cfg) (res result) {
+// passes: every case runs this many consecutive Reprovide passes on the SAME system (the key provider yields
+// the same stream on every call), so that state surviving from one pass to the next is exercised.
+const passes = 2
+
+func runPasses(c cfg) (out []result) {
+	res := &result{}
 	ds := dssync.MutexWrap(datastore.NewMapDatastore())
 	rt := &router{fail: c.Fail, warm: make(chan struct{})}
 	var rsys provider.Provide
@@ -163,14 +168,18 @@ func runCase(c cfg) (res result) {
 	} else {
 		rsys = &singleRouter{rt}
 	}
-	kch := make(chan cid.Cid, len(c.Word))
-	for _, k := range c.Word {
-		kch <- syms[k].c
+	var kch chan cid.Cid
+	kpf := func(context.Context) (<-chan cid.Cid, error) {
+		kch = make(chan cid.Cid, len(c.Word))
+		for _, k := range c.Word {
+			kch <- syms[k].c
+		}
+		close(kch)
+		return kch, nil
 	}
-	close(kch)
 	opts := []provider.Option{
 		provider.Online(rsys),
-		provider.KeyProvider(func(context.Context) (<-chan cid.Cid, error) { return kch, nil }),
+		provider.KeyProvider(kpf),
 		provider.ReproviderInterval(0),
 		provider.ProvideWorkerCount(1),
 		provider.Allowlist(allowlists[c.AL]),
@@ -187,16 +196,39 @@ func runCase(c cfg) (res result) {
 	sys, err := provider.New(ds, opts...)
 	if err != nil {
 		res.err = fmt.Errorf("New: %w", err)
-		return
+		return []result{*res}
 	}
 	// Warm-up: push one key through the provide queue and wait until the router sees it. After that the
 	// provide-worker goroutines started by New are parked for good (blocked on the empty queue) and execute no
 	// more instrumented loop iterations, so the loop budget below counts Reprovide only.
 	if err := sys.Provide(context.Background(), warmCid, true); err != nil {
 		res.err = fmt.Errorf("warm-up Provide: %w", err)
-		return
+		return []result{*res}
 	}
 	<-rt.warm
+	for p := 0; p < passes; p++ {
+		if p > 0 {
+			res = &result{}
+		}
+		kch = nil
+		pres := res
+		runOnePass(sys, c, pres)
+		if kch != nil {
+			pres.left = len(kch)
+		}
+		rt.mu.Lock()
+		pres.batches, rt.batches = rt.batches, nil
+		rt.mu.Unlock()
+		out = append(out, *pres)
+		if pres.nonterm || pres.panicV != nil {
+			break
+		}
+	}
+	sys.Close()
+	return out
+}
+
+func runOnePass(sys provider.System, c cfg, res *result) {
 	vsched.SetTickBudget(tickBudget(len(c.Word)))
 	func() {
 		defer func() {
@@ -211,12 +243,6 @@ func runCase(c cfg) (res result) {
 		res.err = sys.Reprovide(context.Background())
 	}()
 	vsched.SetTickBudget(0)
-	res.left = len(kch)
-	sys.Close()
-	rt.mu.Lock()
-	res.batches = rt.batches
-	rt.mu.Unlock()
-	return
 }
 
 func effectiveBatch(c cfg) int {
@@ -234,9 +260,13 @@ func effectiveBatch(c cfg) int {
 	return b
 }
 
-func judge(c cfg, res result) *eng.Violation {
+func judge(c cfg, res result, pass int) *eng.Violation {
 	mk := func(symptom, detail string, kv ...string) *eng.Violation {
-		v := eng.V(symptom, "Reprovide", fmt.Sprintf("%s\n  case: %s", detail, describe(c)), kv...)
+		v := eng.V(symptom, "Reprovide", fmt.Sprintf("pass %d on the same system: %s\n  case: %s", pass+1, detail, describe(c)), kv...)
+		if v.Features == nil {
+			v.Features = map[string]string{}
+		}
+		v.Features["first_pass"] = fmt.Sprint(pass == 0)
 		v.Replay = c
 		return v
 	}
@@ -294,7 +324,7 @@ func judge(c cfg, res result) *eng.Violation {
 	}
 	if len(missing) > 0 {
 		sort.Strings(missing)
-		return mk("key-not-announced", fmt.Sprintf("Reprovide returned nil but allowed keys %v were never passed to the router (%d router calls)", missing, len(res.batches)), "effective_batch_size_zero", zero, "router_failed", fmt.Sprint(c.Fail == 1))
+		return mk("key-not-announced", fmt.Sprintf("Reprovide returned nil but allowed keys %v were never passed to the router (%d router calls)", missing, len(res.batches)), "effective_batch_size_zero", zero, "router_failed", fmt.Sprint(c.Fail == 1 && pass == 0))
 	}
 	return nil
 }
@@ -435,12 +465,18 @@ func runShard(thorough bool, shard, of int, deadline int64) *e2stats {
 			}
 			c := c0
 			c.Word = w
-			res := runCase(c)
+			ress := runPasses(c)
+			res := ress[0]
 			st.Evals++
+			st.Counters["passes"] += len(ress)
 			if len(w) > 0 {
 				st.Distinct++
 			}
-			st.Outcomes[outcomeOf(c, res)]++
+			oc := ""
+			for _, pr := range ress {
+				oc += outcomeOf(c, pr) + " / "
+			}
+			st.Outcomes[oc]++
 			if res.nonterm {
 				st.Counters["nonterminating_cases"]++
 			}
@@ -475,11 +511,14 @@ func runShard(thorough bool, shard, of int, deadline int64) *e2stats {
 			if c.Fail == 1 && len(res.batches) > 0 {
 				st.Counters["cases_with_router_failure"]++
 			}
-			if v := judge(c, res); v != nil {
-				sig := v.Symptom + fmt.Sprint(v.Features)
-				st.ViolCount[sig]++
-				if st.ViolCount[sig] <= 3 {
-					st.Viols = append(st.Viols, v)
+			for pi, pr := range ress {
+				if v := judge(c, pr, pi); v != nil {
+					sig := v.Symptom + fmt.Sprint(v.Features)
+					st.ViolCount[sig]++
+					if st.ViolCount[sig] <= 3 {
+						st.Viols = append(st.Viols, v)
+					}
+					break
 				}
 			}
 		}
@@ -594,13 +633,22 @@ type pscript struct {
 	fail    int // index of a stream whose KeyChanFunc returns an error, -1 none
 	buf     int // capacity of the stream channels
 	delta   int
+	// every consumer lists the SAME KeyChanFunc value `passes` times in a row (0 = 2); `consumers` threads do so
+	// concurrently (0 = 1)
+	passes    int
+	consumers int
+}
+
+type listing struct {
+	consumer, pass int
+	out            []int
+	closed         bool
+	kpErr          error
 }
 
 type pexec struct {
-	sc     *pscript
-	out    []int
-	closed bool
-	kpErr  error
+	sc    *pscript
+	lists []*listing
 }
 
 func (x *pexec) Main() {
@@ -623,39 +671,91 @@ func (x *pexec) Main() {
 		})
 	}
 	kp := provider.NewPrioritizedProvider(fns...)
-	vsched.GoNamed("consumer", true, func() {
-		ch, err := kp(context.Background())
-		if err != nil {
-			x.kpErr = err
-			return
-		}
-		for {
-			c, ok := vsched.Recv2(ch)
-			if !ok {
-				x.closed = true
-				return
+	np, nc := sc.passes, sc.consumers
+	if np == 0 {
+		np = 2
+	}
+	if nc == 0 {
+		nc = 1
+	}
+	for ci := 0; ci < nc; ci++ {
+		ci := ci
+		vsched.GoNamed(fmt.Sprintf("consumer%d", ci), true, func() {
+			for pi := 0; pi < np; pi++ {
+				l := &listing{consumer: ci, pass: pi}
+				x.lists = append(x.lists, l)
+				ch, err := kp(context.Background())
+				if err != nil {
+					l.kpErr = err
+					return
+				}
+				for {
+					c, ok := vsched.Recv2(ch)
+					if !ok {
+						l.closed = true
+						break
+					}
+					k, known := symByCid[c]
+					if !known {
+						k = -1
+					}
+					l.out = append(l.out, k)
+				}
 			}
-			k, known := symByCid[c]
-			if !known {
-				k = -1
-			}
-			x.out = append(x.out, k)
-		}
-	})
+		})
+	}
 }
 
 func (x *pexec) AtEnd(*vsched.Result) {}
 
-func (x *pexec) Outcome() string { return fmt.Sprintf("%v closed=%v err=%v", x.out, x.closed, x.kpErr) }
+func (x *pexec) Outcome() string {
+	ls := append([]*listing{}, x.lists...)
+	sort.SliceStable(ls, func(i, j int) bool {
+		if ls[i].consumer != ls[j].consumer {
+			return ls[i].consumer < ls[j].consumer
+		}
+		return ls[i].pass < ls[j].pass
+	})
+	var sb strings.Builder
+	for _, l := range ls {
+		fmt.Fprintf(&sb, "c%dp%d:%v closed=%v err=%v ", l.consumer, l.pass, l.out, l.closed, l.kpErr)
+	}
+	return sb.String()
+}
 
+// Check judges every listing on its own: each call of the KeyChanFunc is one listing of all streams.
 func (x *pexec) Check(*vsched.Result) *eng.Violation {
+	np, nc := x.sc.passes, x.sc.consumers
+	if np == 0 {
+		np = 2
+	}
+	if nc == 0 {
+		nc = 1
+	}
+	if len(x.lists) != np*nc {
+		return eng.V("prioritized-no-output", "NewPrioritizedProvider", fmt.Sprintf("%d listings were started, %d expected", len(x.lists), np*nc))
+	}
+	for _, l := range x.lists {
+		if v := x.checkListing(l); v != nil {
+			if v.Features == nil {
+				v.Features = map[string]string{}
+			}
+			v.Features["first_listing"] = fmt.Sprint(l.pass == 0)
+			v.Features["concurrent_listings"] = fmt.Sprint(nc > 1)
+			return v
+		}
+	}
+	return nil
+}
+
+func (x *pexec) checkListing(l *listing) *eng.Violation {
 	sc := x.sc
-	desc := fmt.Sprintf("streams=%v failing=%d output=%v", names2(sc.streams), sc.fail, names(x.out))
-	if x.kpErr != nil || !x.closed {
+	desc := fmt.Sprintf("listing %d of consumer %d over the same provider value: streams=%v failing=%d output=%v", l.pass+1, l.consumer, names2(sc.streams), sc.fail, names(l.out))
+	if l.kpErr != nil || !l.closed {
 		return eng.V("prioritized-no-output", "NewPrioritizedProvider", "the provider returned an error or its channel was not closed: "+desc)
 	}
 	count := map[int]int{}
-	for _, k := range x.out {
+	for _, k := range l.out {
 		if k < 0 {
 			return eng.V("prioritized-unknown-key", "NewPrioritizedProvider", desc)
 		}
@@ -724,6 +824,7 @@ func pscripts(thorough bool) []*pscript {
 		{name: "first-stream-error", streams: [][]int{{A}, {A, B}, {B}}, fail: 0},
 		{name: "empty-streams", streams: [][]int{{}, {A}, {}}, fail: -1},
 		{name: "same-multihash-different-cid", streams: [][]int{{A, A2}, {A2, A}}, fail: -1},
+		{name: "concurrent-listings", streams: [][]int{{A, B}, {B, C}}, fail: -1, passes: 1, consumers: 2},
 	}
 	if thorough {
 		ss = append(ss,
@@ -736,17 +837,33 @@ func pscripts(thorough bool) []*pscript {
 
 func pscenarios(thorough bool) []*vexp.Scenario {
 	var out []*vexp.Scenario
-	for _, s := range pscripts(thorough) {
-		s := s
+	for _, s0 := range pscripts(thorough) {
+		// (1) one listing, every thread switch at a blocking point free (classical preemption bounding), as before
+		if s0.consumers <= 1 {
+			one := *s0
+			one.passes = 1
+			out = append(out, &vexp.Scenario{
+				Name: one.name, BoundDelta: one.delta,
+				Cfg: vsched.Config{MaxSteps: 20000, MaxIdleFires: 2, SelectCost: 1},
+				New: func() vexp.Exec { return &pexec{sc: &one} },
+			})
+		}
+		// (2) the SAME provider value listed again (and, where the script says so, by concurrent consumers). Free
+		// switches multiply over consecutive listings, so these runs use delay bounding (SwitchCost 1): resuming a
+		// thread other than the lowest-numbered enabled one costs a deviation as well.
+		rep := *s0
+		if rep.consumers <= 1 {
+			rep.name += "/relisted"
+			rep.passes = 2
+		}
 		out = append(out, &vexp.Scenario{
-			Name: s.name, BoundDelta: s.delta,
-			Cfg: vsched.Config{MaxSteps: 20000, MaxIdleFires: 2, SelectCost: 1},
-			New: func() vexp.Exec { return &pexec{sc: s} },
+			Name: rep.name, BoundDelta: 0,
+			Cfg: vsched.Config{MaxSteps: 40000, MaxIdleFires: 2, SelectCost: 1, SwitchCost: 1},
+			New: func() vexp.Exec { return &pexec{sc: &rep} },
 		})
 	}
 	return out
 }
-
 
 // ---------------------------------------------------------------------------
 // part C: the reprovider itself under the controlled scheduler: Reprovide
@@ -757,8 +874,9 @@ func pscenarios(thorough bool) []*vexp.Scenario {
 
 type rscript struct {
 	name    string
-	kps     [][]int    // key providers: kps[0] is installed at construction
-	threads [][]string // actions: "rp" (Reprovide), "set:<i>" (SetKeyProvider(kps[i]))
+	kps     [][]int         // key providers (their key streams): kps[0] is installed at construction
+	prio    map[int][][]int // kps[i] is a NewPrioritizedProvider over these streams (its keys: kps[i] = their union)
+	threads [][]string      // actions: "rp" (Reprovide), "set:<i>" (SetKeyProvider(kps[i]))
 	batch   int
 	delta   int
 }
@@ -775,6 +893,7 @@ type rexec struct {
 	sc  *rscript
 	log []rev
 	sys provider.System
+	kpv []provider.KeyChanFunc // ONE value per key provider for the whole execution, called once per pass
 }
 
 type schedRouter struct{ x *rexec }
@@ -801,8 +920,20 @@ func (r *schedRouter) ProvideMany(ctx context.Context, keys []mh.Multihash) erro
 	return nil
 }
 
-func (x *rexec) kp(i int) provider.KeyChanFunc {
-	keys := x.sc.kps[i]
+func (x *rexec) kp(i int) provider.KeyChanFunc { return x.kpv[i] }
+
+func (x *rexec) mkKP(i int) provider.KeyChanFunc {
+	if sts, ok := x.sc.prio[i]; ok {
+		var fns []provider.KeyChanFunc
+		for _, st := range sts {
+			fns = append(fns, x.plainKP(st))
+		}
+		return provider.NewPrioritizedProvider(fns...)
+	}
+	return x.plainKP(x.sc.kps[i])
+}
+
+func (x *rexec) plainKP(keys []int) provider.KeyChanFunc {
 	return func(context.Context) (<-chan cid.Cid, error) {
 		ch := vsched.Reg(make(chan cid.Cid, len(keys)+1))
 		for _, k := range keys {
@@ -815,6 +946,9 @@ func (x *rexec) kp(i int) provider.KeyChanFunc {
 
 func (x *rexec) Main() {
 	sc := x.sc
+	for i := range sc.kps {
+		x.kpv = append(x.kpv, x.mkKP(i))
+	}
 	ds := dssync.MutexWrap(datastore.NewMapDatastore())
 	sys, err := provider.VerifNewNoWorkers(ds, &schedRouter{x}, provider.KeyProvider(x.kp(0)), provider.ReproviderInterval(0), provider.MaxBatchSize(uint(sc.batch)))
 	if err != nil {
@@ -826,7 +960,7 @@ func (x *rexec) Main() {
 		vsched.GoNamed(fmt.Sprintf("caller%d", t), true, func() {
 			for _, a := range acts {
 				if a == "rp" {
-					x.log = append(x.log, rev{kind: "rp-start", thr: t})
+					x.log = append(x.log, rev{kind: "rp-start", thr: t, kp: vsched.CurrentThread()})
 					err := sys.Reprovide(context.Background())
 					e := ""
 					if err != nil {
@@ -946,9 +1080,10 @@ func (x *rexec) Check(*vsched.Result) *eng.Violation {
 				}
 			}
 		}
+		// "has announced": the router calls made by this very call (same scheduler thread, between its start and its return)
 		got := map[int]bool{}
-		for j := 0; j < r; j++ {
-			if x.log[j].kind == "announce" {
+		for j := s + 1; j < r; j++ {
+			if x.log[j].kind == "announce" && x.log[j].thr == x.log[s].kp {
 				for _, k := range x.log[j].keys {
 					got[k] = true
 				}
@@ -993,6 +1128,9 @@ func rscripts(thorough bool) []*rscript {
 		{name: "reprovide-vs-setkeyprovider", kps: [][]int{{A, X, B}, {C, D}}, threads: [][]string{{"rp"}, {"set:1"}}, delta: 1, batch: 1},
 		{name: "reprovide-vs-set-reprovide", kps: [][]int{{A, B}, {C, X, D}}, threads: [][]string{{"rp"}, {"set:1", "rp"}}, delta: 1, batch: 1},
 		{name: "reprovide-vs-reprovide", kps: [][]int{{A, B, X}}, threads: [][]string{{"rp"}, {"rp"}}, delta: 1, batch: 2},
+		{name: "two-passes", kps: [][]int{{A, B, X}}, threads: [][]string{{"rp", "rp"}}, batch: 2},
+		{name: "two-passes-prioritized", kps: [][]int{{A, B, C, X}}, prio: map[int][][]int{0: {{A, B}, {B, X, C}}}, threads: [][]string{{"rp", "rp"}}, batch: 2},
+		{name: "prioritized-reprovide-vs-reprovide", kps: [][]int{{A, B, C}}, prio: map[int][][]int{0: {{A, B}, {B, C}}}, threads: [][]string{{"rp", "rp"}, {"rp"}}, batch: 1},
 		{name: "set-reprovide-vs-set-reprovide", kps: [][]int{{A}, {B}, {C}}, threads: [][]string{{"set:1", "rp"}, {"set:2", "rp"}}, batch: 1},
 	}
 	if thorough {
@@ -1005,9 +1143,12 @@ func rscenarios(thorough bool) []*vexp.Scenario {
 	var out []*vexp.Scenario
 	for _, s := range rscripts(thorough) {
 		s := s
+		cfg := vsched.Config{MaxSteps: 20000, MaxIdleFires: 2, SelectCost: 1}
+		if len(s.prio) > 0 {
+			cfg.SwitchCost = 1 // forwarder + producer threads on top of the callers: delay bounding
+		}
 		out = append(out, &vexp.Scenario{
-			Name: s.name, BoundDelta: s.delta,
-			Cfg: vsched.Config{MaxSteps: 20000, MaxIdleFires: 2, SelectCost: 1},
+			Name: s.name, BoundDelta: s.delta, Cfg: cfg,
 			New: func() vexp.Exec { return &rexec{sc: s} },
 		})
 	}
@@ -1045,24 +1186,30 @@ func main() {
 				fmt.Println("bad replay:", err)
 				return
 			}
-			res := runCase(c)
-			fmt.Printf("  case: %s\n  nonterminating=%v err=%v keys-left-in-channel=%d router calls=%d callback calls=%v\n", describe(c), res.nonterm, res.err, res.left, len(res.batches), res.cbs)
-			for i, b := range res.batches {
-				var ns []string
-				for _, h := range b {
-					n := "?"
-					for _, s := range syms {
-						if string(s.c.Hash()) == string(h) {
-							n = s.name
-							break
-						}
-					}
-					ns = append(ns, n)
+			fmt.Printf("  case: %s\n", describe(c))
+			var viol *eng.Violation
+			for pi, res := range runPasses(c) {
+				fmt.Printf("  pass %d: nonterminating=%v err=%v keys-left-in-channel=%d router calls=%d callback calls=%v\n", pi+1, res.nonterm, res.err, res.left, len(res.batches), res.cbs)
+				if v := judge(c, res, pi); v != nil && viol == nil {
+					viol = v
 				}
-				fmt.Printf("  router call %d: %v\n", i, ns)
+				for i, b := range res.batches {
+					var ns []string
+					for _, h := range b {
+						n := "?"
+						for _, s := range syms {
+							if string(s.c.Hash()) == string(h) {
+								n = s.name
+								break
+							}
+						}
+						ns = append(ns, n)
+					}
+					fmt.Printf("  router call %d: %v\n", i, ns)
+				}
 			}
 			r.Eval(1)
-			if v := judge(c, res); v != nil {
+			if v := viol; v != nil {
 				r.Report(v)
 			} else {
 				fmt.Println("  replay: no violation")
